@@ -61,11 +61,14 @@ def h_views(E, ns, nr, coeffs, rules=("r", "q", "R1"), shared=False):
     want_mol = dict(H.species_to_mol)
     info = dict(network=want, mol=want_mol)
     # --- bipartite, string and integer ids
-    for int_ids in (False, True):
-        B = cv.hypergraph_to_bipartite(H, integer_ids=int_ids, include_edge_id_attr=True, include_mol=True)
+    # every species of the network takes part in a reaction here, so leaving isolated species out changes nothing
+    for int_ids, iso_sp in ((False, True), (True, True), (True, False), (False, False)):
+        B = cv.hypergraph_to_bipartite(H, integer_ids=int_ids, include_edge_id_attr=True, include_mol=True,
+                                       include_isolated_species=iso_sp)
         H2 = cv.bipartite_to_hypergraph(B)
         E.check(rx_list(H2) != want or dict(H2.species_to_mol) != want_mol or set(H2.species) != set(H.species),
-                "bipartite-round-trip", dict(info, integer_ids=int_ids, got=rx_list(H2), got_mol=dict(H2.species_to_mol)))
+                "bipartite-round-trip", dict(info, integer_ids=int_ids, include_isolated_species=iso_sp, got=rx_list(H2),
+                                             got_mol=dict(H2.species_to_mol)))
         n_sp = sum(1 for _, d in B.nodes(data=True) if d.get("kind") == "species")
         n_rx = sum(1 for _, d in B.nodes(data=True) if d.get("kind") == "reaction")
         E.check(n_sp != len(H.species) or n_rx != len(H.edges), "bipartite-has-one-node-per-species-and-reaction", info)
